@@ -225,11 +225,11 @@ func checkC20Weights(c C20Case) (o Outcome) {
 				continue
 			}
 			f, err := strconv.ParseFloat(cell, 64)
-			if err != nil || math.IsNaN(f) || math.IsInf(f, 0) {
+			if err != nil {
 				o.Violation = V("weight-not-a-number", "weights cell %q for %s on %s\n%s", cell, name, dates[i], clip(rw.Stdout, 1500))
 				return o
 			}
-			got[name][dates[i]] = f
+			got[name][dates[i]] = f // NaN/Inf are judged per date below: shares of a zero total are undefined
 		}
 	}
 	nDatesChecked, held2 := 0, false
@@ -250,6 +250,12 @@ func checkC20Weights(c C20Case) (o Outcome) {
 		nDatesChecked++
 		if nz >= 2 {
 			held2 = true
+		}
+		for name := range got {
+			if w, ok := got[name][d]; ok && (math.IsNaN(w) || math.IsInf(w, 0)) {
+				o.Violation = V("weight-not-a-number", "weights cell %v for %s on %s although the holdings total %s\n%s", w, name, d, total.FloatString(4), clip(rw.Stdout, 1500))
+				return o
+			}
 		}
 		// expected weight per output row = sum over the commodities mapped onto it (leaf or group)
 		exp := map[string]float64{}
@@ -443,11 +449,36 @@ func checkC20Returns(c C20Case) (o Outcome) {
 			continue
 		}
 		v0, v1 := value(p.Start-1), value(p.End)
+		unchanged := true
+		{
+			before := pb.Normalized(c.V, p.Start-1)
+			for _, d := range pb.PriceDays() {
+				if d >= p.Start && d <= p.End {
+					for com, x := range pb.Normalized(c.V, d) {
+						if y, ok := before[com]; !ok || y.Cmp(x) != 0 {
+							unchanged = false
+						}
+					}
+				}
+			}
+		}
+		if !flows && unchanged {
+			// nothing happened to the portfolio in this period: 0 %, whatever it is worth (also zero or negative)
+			nFlowFree++
+			if lines[i].raw != "0.0" && lines[i].raw != "-0.0" {
+				o.Violation = V("idle-period-return", "knut %v\nperiod ending %s has no flows and unchanged prices (value %s), return %s%%, expected 0.0%%\n%s\n--journal--\n%s", args, p.End, v1.FloatString(4), lines[i].raw, clip(r.Stdout, 800), clip(c.Text, 2500))
+				return o
+			}
+		}
 		if !flows && v0.Sign() > 0 && v1.Sign() > 0 {
 			nFlowFree++
 			e, _ := new(big.Rat).Quo(v1, v0).Float64()
 			exp := 100 * (e - 1)
-			if math.Abs(lines[i].pct-exp) > 0.051 {
+			// one printed decimal, plus what the 8-decimal truncation of every value entry can do to tiny portfolios
+			f0, _ := v0.Float64()
+			f1, _ := v1.Float64()
+			tol := 0.051 + 100*e*float64(len(ideal)+1)*1e-8*(1/f0+1/f1)
+			if math.Abs(lines[i].pct-exp) > tol {
 				o.Violation = V("flow-free-return", "knut %v\nperiod ending %s has no flows: value %s -> %s, return %s%%, expected %.3f%%\n%s\n--journal--\n%s", args, p.End, v0.FloatString(4), v1.FloatString(4), lines[i].raw, exp, clip(r.Stdout, 800), clip(c.Text, 2500))
 				return o
 			}
@@ -550,9 +581,35 @@ func drawC20(t *rapid.T) C20Case {
 		}
 		ds = append(ds, d)
 	}
-	// initial funding
-	trx("Equity:Equity", "Assets:Bank", fmt.Sprint(rapid.IntRange(1000, 100000).Draw(t, "fund")), v, false)
-	trx("Equity:Equity", "Assets:Broker", fmt.Sprint(rapid.IntRange(1, 500).Draw(t, "units")), others[0], false)
+	// several bookings in one transaction (a trade, a deposit in two currencies)
+	trx2 := func(bs ...ref.Booking) {
+		n++
+		for _, b := range bs {
+			addPos(b.Credit, b.Com, ref.Neg(ref.R(b.Qty)))
+			addPos(b.Debit, b.Com, ref.R(b.Qty))
+		}
+		ds = append(ds, ref.Directive{Kind: ref.KTrx, Date: day, Desc: fmt.Sprintf("t%d", n), Bookings: bs})
+	}
+	// initial funding - or a fully leveraged start: a position bought entirely on margin, net value exactly zero
+	if rapid.IntRange(0, 5).Draw(t, "leveraged") == 0 {
+		units := rapid.IntRange(1, 50).Draw(t, "units")
+		var direct *ref.Directive
+		for i := range ds {
+			if ds[i].Kind == ref.KPrice && ds[i].Com == others[0] && ds[i].Target == v {
+				direct = &ds[i]
+			}
+		}
+		if direct != nil {
+			loan := ref.DecString(ref.Trunc8(ref.Mul(ref.R(direct.Price), ref.R(fmt.Sprint(units)))))
+			trx2(ref.Booking{Credit: "Equity:Equity", Debit: "Assets:Broker", Qty: fmt.Sprint(units), Com: others[0]},
+				ref.Booking{Credit: "Liabilities:Loan", Debit: "Equity:Equity", Qty: loan, Com: v})
+		} else {
+			trx("Equity:Equity", "Assets:Bank", fmt.Sprint(rapid.IntRange(1000, 100000).Draw(t, "fund")), v, false)
+		}
+	} else {
+		trx("Equity:Equity", "Assets:Bank", fmt.Sprint(rapid.IntRange(1000, 100000).Draw(t, "fund")), v, false)
+		trx("Equity:Equity", "Assets:Broker", fmt.Sprint(rapid.IntRange(1, 500).Draw(t, "units")), others[0], false)
+	}
 	steps := rapid.IntRange(2, 10).Draw(t, "steps")
 	for s := 0; s < steps; s++ {
 		day += ref.Day(rapid.SampledFrom([]int{1, 3, 9, 17, 26, 31, 45, 70}).Draw(t, "gap"))
@@ -575,7 +632,13 @@ func drawC20(t *rapid.T) C20Case {
 		case "price":
 			ds = append(ds, price(rapid.SampledFrom(others).Draw(t, "pc")))
 		case "deposit":
-			trx("Income:Salary", "Assets:Bank", fmt.Sprint(rapid.IntRange(1, 5000).Draw(t, "amt")), v, false)
+			if rapid.IntRange(0, 3).Draw(t, "twoCurrencies") == 0 {
+				// one transaction, two commodities
+				trx2(ref.Booking{Credit: "Income:Salary", Debit: "Assets:Bank", Qty: fmt.Sprint(rapid.IntRange(1, 5000).Draw(t, "amt")), Com: v},
+					ref.Booking{Credit: "Income:Salary", Debit: "Assets:Broker", Qty: fmt.Sprint(rapid.IntRange(1, 50).Draw(t, "amt2")), Com: rapid.SampledFrom(others).Draw(t, "dc")})
+			} else {
+				trx("Income:Salary", "Assets:Bank", fmt.Sprint(rapid.IntRange(1, 5000).Draw(t, "amt")), v, false)
+			}
 		case "withdraw":
 			trx("Assets:Bank", "Expenses:Fees", fmt.Sprint(rapid.IntRange(1, 500).Draw(t, "amt")), v, false)
 		case "buy":
